@@ -214,6 +214,7 @@ class GatewarePHY(Elaboratable):
         # Receiver
         #
         m.submodules.receiver = receiver = RxPipeline()
+        rx_error_hold = Signal(2)
         m.d.comb += [
 
             # We'll listen for packets on D+ and D- _whenever we're not transmitting._.
@@ -224,8 +225,15 @@ class GatewarePHY(Elaboratable):
             self.rx_data     .eq(receiver.o_data_payload),
             self.rx_valid    .eq(receiver.o_data_strobe & receiver.o_pkt_in_progress),
             self.rx_active   .eq(receiver.o_pkt_in_progress),
-            self.rx_error    .eq(receiver.o_receive_error)
+            self.rx_error    .eq(receiver.o_receive_error | (rx_error_hold != 0))
         ]
+
+        # The receive error strobe lasts one 48MHz cycle; hold it for a full 12MHz cycle so that
+        # a consumer in the ``usb`` domain always sees it.
+        with m.If(receiver.o_receive_error):
+            m.d.usb_io += rx_error_hold.eq(3)
+        with m.Elif(rx_error_hold != 0):
+            m.d.usb_io += rx_error_hold.eq(rx_error_hold - 1)
         m.d.usb += self.rx_complete .eq(receiver.o_pkt_end)
 
 
